@@ -35,6 +35,9 @@ func init() {
 			"other half: 4 documents each from an RFC 8259 text generator (whitespace in every gap, all number spellings, all escapes, duplicate names), " +
 			"a near-miss mutation catalogue, non-UTF-8 strings, deep/wide documents and JSON-ish random bytes, loaded by load-string/load-bytes in all four flag combinations " +
 			"(keywords, explicit false keywords, use-string-numbers/use-exact-integers defaults, overridden defaults); loaded values are re-dumped, also after the keys of one of their objects were re-written as symbols of the same names via assoc. " +
+			"Histories (a quarter of the container-holding JSON texts and of the values): a text is loaded twice, the containers of the first result -- at every depth, the empty ones first -- are changed IN PLACE through append!, stable-sort, assoc! (new / existing name) and dissoc! (existing / absent name), optionally after a dump; " +
+			"the changed value must be the text's tree with exactly those changes, the result loaded earlier, a load afterwards in the same runtime, one in a second runtime of the process and libjson.LoadWith must all still be the text's tree, the two loads equal?, the dump of the changed value must read back to it; " +
+			"the first value a case loads is kept and re-compared with its tree after every later document of the case; a value is compared with a fresh twin before and after its dumps, bytes an earlier dump returned are grown in place (append-bytes!) or followed by dumps of other values, and the value is changed in place and dumped again (against the changed model and a freshly built twin). " +
 			"A case class is distinct by (shape, build route, key kinds, mode, leaf classes) for values and by (origin, mutation name or number/string classes, verdict, nesting bucket) for documents; " +
 			"empty or scalar-free cases are not counted.",
 		Assumptions: []string{
@@ -46,6 +49,7 @@ func init() {
 			"strings that are not valid UTF-8 have no JSON representation: only a valid document whose decoded string is the U+FFFD replacement is demanded; equal? is not asserted for them",
 			"list and vector are the same JSON array: load(dump v) is compared with v after turning lists into vectors",
 			"sorted object names: bytewise (code point) order or UTF-16 code unit order are both accepted",
+			"what the in-place mutators do is not C13's subject: a disagreement between a mutated loaded value and the harness's model of the mutation counts only if the same script on a value built with the Go constructors follows the model; a value that was not touched by the script is judged against the independent decoder's tree alone",
 			"a sorted-map key is its name: 'k and \"k\" are the same key (docs/lang.md, Sorted Maps: the spelling is presentation only), so the member name of a symbol key is the symbol's name whatever token it resembles; which spelling a map shows after a name was written under both is not judged",
 		},
 		Cases: func(tier string) int {
@@ -80,8 +84,10 @@ func c13Run(w *fw.W, idx int) {
 		w.State = c
 	}
 	c.resetDefaults()
+	c.kept = nil // a case is self-contained (replayable alone)
 	if w.RNG(idx, "kind").Intn(2) == 0 {
 		c13RunValueCase(w, c, idx)
+		c13CheckKept(w, c, "")
 		return
 	}
 	for k := 0; k < c13DocsPerCase; k++ {
